@@ -20,9 +20,10 @@ Three monitors judge every ``create_all`` / ``drop_all`` the workload runs:
    results while the workload runs.
 
 Guards:
-  * cycles are only generated with *named* constraints (or a naming convention): dropping
-    an unnamed cyclic constraint raises a documented CircularDependencyError on ALTER
-    dialects.
+  * a cycle made of *unnamed* constraints only cannot be dropped on ALTER dialects
+    (documented CircularDependencyError): the "mixed" variant names constraints at random
+    but keeps the unnamed ones acyclic (partly named cycles, named cycle + unnamed FK to an
+    outside table, unnamed self reference); "unnamed" is used for acyclic graphs only.
   * ``use_alter`` edges are, as documented, not dependencies for sorting; sorted_tables is
     judged only on edges whose two tables are on no cycle (cycle => documented warning
     and "foreign keys of these tables are omitted").
@@ -43,7 +44,7 @@ META = {
     "id": "C14",
     "level": "exploration",
     "technique": "SQLite execution with FK enforcement + strict-catalog trace monitor over the DDL stream of 4 ALTER-capable dialects on a recording DBAPI + direct sorted_tables oracle",
-    "level_text": "Exhaustive over all FK digraphs (self references included) on <=3 tables x 5 naming/use_alter variants, each on SQLite and on the postgresql/mysql/mssql/oracle DDL streams, plus seeded random graphs on 4-7 tables (multi-column keys, parallel edges, indexes, explicit dependencies), with checkfirst off/on and closed pre-existing subsets.",
+    "level_text": "Exhaustive over all FK digraphs (self references included) on <=3 tables x 6 naming/use_alter variants (incl. per-constraint mixed naming), each on SQLite and on the postgresql/mysql/mssql/oracle DDL streams, plus seeded random graphs on 4-7 tables (multi-column keys, parallel edges, indexes, explicit dependencies), with checkfirst off/on and closed pre-existing subsets.",
     "level_note": "PostgreSQL/MySQL/MSSQL/Oracle are not executed: their DDL stream is replayed against a 150-line strict catalog model whose rules (dangling REFERENCES rejected, DROP of a referenced table rejected) are a transcription of those backends' documented behaviour; has_table/has_index are answered from the model, so the dialects' own catalog queries are not exercised.",
     "design_ref": "DESIGN.md section 4, C14",
     "rule": "case = (graph, variant, plan, backend); non-trivial = graph has >=2 foreign keys or a cycle; distinct by the graph spec + variant + plan",
@@ -106,7 +107,21 @@ def make_spec(n, pairs, variant, rng, wide_mask=0, parallel=()):
         elif variant == "alter-random":
             ua = rng.random() < 0.4
         named = variant in ("named", "alter-cycles", "alter-random")
+        if variant == "mixed":
+            named = rng.random() < 0.5
         edges.append({"child": c, "parent": p, "use_alter": ua, "named": named, "k": k})
+    if variant == "mixed":
+        # per-constraint naming.  Droppable (documented: "ensure the constraints involved in
+        # the cycle have names") as long as the *unnamed* constraints alone form no cycle:
+        # name further edges until that holds.  Unnamed self references, unnamed edges to
+        # tables outside a cycle and partly named cycles all stay in.
+        while True:
+            un = [(e["child"], e["parent"]) for e in edges if not e["named"] and e["child"] != e["parent"]]
+            bad = on_cycle(n, un)
+            if not bad:
+                break
+            cand = [e for e in edges if not e["named"] and e["child"] != e["parent"] and e["child"] in bad and e["parent"] in bad]
+            rng.choice(cand)["named"] = True
     return {
         "n": n,
         "wide": [bool(wide_mask >> i & 1) for i in range(n)],
@@ -280,6 +295,10 @@ def run_case(ctx, sa, backends, spec, plan, rng, label):
     cyc = on_cycle(n, pairs)
     ctx.count("cyclic_graphs" if cyc else "acyclic_graphs")
     any_alter = any(e["use_alter"] for e in spec["edges"])
+    parallel_mixed = any(
+        a["child"] == b["child"] and a["parent"] == b["parent"] and a["child"] != a["parent"]
+        and a["child"] in cyc and not a["named"] and not a["use_alter"] and b["named"]
+        for a in spec["edges"] for b in spec["edges"])
     desc = {"spec": {k: spec[k] for k in ("n", "wide", "edges", "convention", "indexes", "extra")}, "plan": plan, "label": label}
 
     # ---- (3) sorted_tables
@@ -330,7 +349,13 @@ def run_case(ctx, sa, backends, spec, plan, rng, label):
                 return False
             if be.rejected is not None:
                 reason, msg, sql = be.rejected
-                fail(f"strict-catalog-rejected:{reason}", f"{msg} :: {sql}")
+                mech = f"strict-catalog-rejected:{reason}"
+                if reason == "drop-referenced-table" and "drop" in stage[0] and parallel_mixed:
+                    # computed from the graph: a cycle table holds a named and an unnamed FK to
+                    # the same table; removing the named one from the sort also discards the
+                    # (referred, table) pair the unnamed one still needs
+                    mech = "drop-order-loses-dependency-of-unnamed-fk-parallel-to-named-fk"
+                fail(mech, f"{msg} :: {sql}")
                 return False
             return True
 
@@ -452,7 +477,7 @@ def install_sort_monitor(ctx):
     return lambda: setattr(topo, "sort", orig)
 
 
-VARIANTS = ("named", "alter-cycles", "alter-random", "convention", "unnamed")
+VARIANTS = ("named", "alter-cycles", "alter-random", "convention", "unnamed", "mixed")
 PLANS = ("plain", "checkfirst", "partial")
 
 
@@ -478,8 +503,8 @@ def run(ctx):
                 for vi, variant in enumerate(VARIANTS):
                     if variant == "unnamed" and cyc:
                         continue  # documented: unnamed cyclic constraints cannot be dropped
-                    if variant in ("alter-cycles",) and not cyc:
-                        continue  # identical to "named"
+                    if variant in ("alter-cycles", "mixed") and not cyc:
+                        continue  # identical to "named" / an acyclic graph needs no names at all
                     idx += 1
                     if not ctx.mine(idx):
                         continue
